@@ -35,6 +35,13 @@ EXPONENTS = {
 }
 HEAD = "def fi(a: int) -> int:\n    return a\n\n\ndef ff(a: float) -> float:\n    return a\n\n\n"
 SIG = "i: int, j: int, f: float, g: float"
+# module-level consts declared before (HEAD) and after (TAIL) the function under test, with and without annotation
+HEAD = "const KIE = 7\nconst KFE = 3 * 0.5\nconst KIEA: int = 7\nconst KFEA: float = 1.5\n\n\n" + HEAD
+TAIL = "\n\nconst KIL = 7\nconst KFL = 3 * 0.5\nconst KILA: int = 7\nconst KFLA: float = 1.5\n"
+CONST_OPERANDS = {
+    "int_const_early": ("KIE", "int"), "float_const_early": ("KFE", "float"), "int_const_early_annotated": ("KIEA", "int"), "float_const_early_annotated": ("KFEA", "float"),
+    "int_const_late": ("KIL", "int"), "float_const_late": ("KFL", "float"), "int_const_late_annotated": ("KILA", "int"), "float_const_late_annotated": ("KFLA", "float"),
+}
 
 
 def table(op, lt, rt, exp_nonneg_lit=False):
@@ -57,6 +64,14 @@ def expressions(tier):
             yield (f"op:{op}", f"l:{ln}", f"r:{rn}"), f"{l} {op} {r}", table(op, lt, rt)
     for (ln, (l, lt)), (en, (e, et, nn)) in itertools.product(OPERANDS.items(), EXPONENTS.items()):
         yield ("op:**", f"l:{ln}", f"exp:{en}"), f"{l} ** {e}", table("**", lt, et, nn)
+    # module-level consts as operands (declared before / after the function, annotated / inferred), on either side
+    partners = [(k, OPERANDS[k]) for k in ("int_lit", "float_lit", "int_var", "float_var")]
+    for op in ARITH:
+        if op == "**":
+            continue
+        for (cn, (c, ct)), (pn, (p_, pt)) in itertools.product(CONST_OPERANDS.items(), partners):
+            yield (f"op:{op}", f"l:{cn}", f"r:{pn}"), f"{c} {op} {p_}", table(op, ct, pt)
+            yield (f"op:{op}", f"l:{pn}", f"r:{cn}"), f"{p_} {op} {c}", table(op, pt, ct)
     # depth 2: (a op1 b) op2 c and a op1 (b op2 c) over variables
     vs = [("i", "int"), ("f", "float")]
     ops2 = ARITH if tier == "thorough" else ["+", "/", "//", "%", "*"]
@@ -112,7 +127,7 @@ def run(tier):
     # ------------------------------------------------------------------ static: recorded expression types
     reqs, meta = [], []
     for k, (sig, e, ty) in enumerate(exprs):
-        src = HEAD + f"def t({SIG}) -> None:\n    x = {e}\n"
+        src = HEAD + f"def t({SIG}) -> None:\n    x = {e}\n" + TAIL
         reqs.append({"id": k, "op": "types", "src": src})
         meta.append((sig, e, ty, src))
     res = serve.run_requests(reqs)
@@ -149,7 +164,7 @@ def run(tier):
             if spec is None:
                 continue
             tpl, need = spec
-            src = HEAD + tpl.replace("{SIG}", SIG).replace("{E}", e)
+            src = HEAD + tpl.replace("{SIG}", SIG).replace("{E}", e) + TAIL
             reqs.append({"id": k, "op": "types", "src": src})
             meta.append((sig, e, ty, pn, need, src))
             k += 1
@@ -160,7 +175,7 @@ def run(tier):
                 # the statement in the function body and in every kind of nested block (the variable lives in the outer scope)
                 for bk, blk in COMPOUND_BLOCKS.items():
                     stmt = blk.replace("{S}", f"m {cop} {rtxt}")
-                    src = HEAD + f"def t({SIG}) -> None:\n    mut m: {mt} = {init}\n" + "".join("    " + l + "\n" for l in stmt.split("\n"))
+                    src = HEAD + f"def t({SIG}) -> None:\n    mut m: {mt} = {init}\n" + "".join("    " + l + "\n" for l in stmt.split("\n")) + TAIL
                     ty = table(bop, mt, rt)
                     reqs.append({"id": k, "op": "types", "src": src})
                     ctx = () if bk == "body" else (f"block:{bk}",)
@@ -219,7 +234,7 @@ def run(tier):
     packs = [funcs[i : i + PACKN] for i in range(0, len(funcs), PACKN)]
 
     def prog(fs):
-        return HEAD + "\n\n".join(b for _, b in fs) + "\n\ndef main() -> None:\n    pass\n"
+        return HEAD + "\n\n".join(b for _, b in fs) + "\n\ndef main() -> None:\n    pass\n" + TAIL
 
     n_built = 0
     not_judged = {}
@@ -254,7 +269,7 @@ def run(tier):
         "distinct_nontrivial": len(sig_ok),
         "rule": "every operator (7 arithmetic, 6 comparison) x left operand kind x right operand kind (int/float literal, variable, parenthesised sub-expression), every `**` "
         "exponent kind (non-negative / zero / negative literal, int variable, int sub-expression, float literal / variable), depth-2 (thorough: depth-3) nestings over int/float "
-        "variables; each in 7 binding positions + 6 compound assignments x 6 right-hand kinds x int/float target x 8 block contexts (function body, if, else, elif, while, for, for+if, match arm) + const initialisers; static oracle = the table of "
+        "variables; module-level consts (int / float, annotated / inferred, declared before / after the function) as left or right operand of every operator with 4 partner kinds; each in 7 binding positions + 6 compound assignments x 6 right-hand kinds x int/float target x 8 block contexts (function body, if, else, elif, while, for, for+if, match arm) + const initialisers; static oracle = the table of "
         "numeric_semantics.md against the checker's recorded expression type and its accept/reject verdict; dynamic oracle = every accepted annotated binding compiles with rustc "
         "(quick: every third)",
         "samples": [{"sig": list(s), "expr": e, "table_type": t} for s, e, t in common.pick_samples(exprs)],
